@@ -49,5 +49,119 @@ func properties() map[string]*propDef {
 		Rule:           "core route tables x {CurlyRouter, RouterJSR311 on its documented forms} x stage (0: path+method symbolic; 1: headers symbolic too); one terminal path = one state",
 		RequiredCovers: []string{"invoked", "not-invoked", "unspecified"},
 	}
+	m["C02"] = &propDef{
+		ID: "C02",
+		Items: routingItems("H_C02", func(tbl int) []int {
+			if hasMedia(tbl) {
+				return []int{0, 1}
+			}
+			return []int{0}
+		}),
+		Bounds: map[string]interface{}{"path_bytes": 12, "segments": 3, "method_bytes": 7,
+			"content_type_bytes": 6, "accept_bytes": 8, "accept_ranges": 2, "content_length_header_bytes": 2, "content_length_field": "[-1,2]", "tables": nCoreTables},
+		Assumptions:    commonAssumptions,
+		Rule:           "core route tables x {CurlyRouter, RouterJSR311} x stage (0: path+method symbolic, headers absent; 1: one concrete URL per route, method/Content-Type/Accept/Content-Length symbolic); each dispatch repeated with trace logging on",
+		RequiredCovers: []string{"invoked", "404", "405", "415", "406", "definite", "indefinite"},
+	}
+	routingBounds := map[string]interface{}{"path_bytes": 12, "segments": 3, "method_bytes": 7, "tables": nCoreTables}
+	m["C04"] = &propDef{
+		ID: "C04",
+		Items: func(tier string, seed int) []item {
+			it := routingItems("H_C04", func(tbl int) []int {
+				if tier == "thorough" {
+					return []int{0, 3}
+				}
+				return []int{0}
+			})(tier, seed)
+			return it
+		},
+		Bounds:         routingBounds,
+		Assumptions:    commonAssumptions,
+		Rule:           "core route tables x routers; GET request with symbolic path; stage 3 (thorough) adds the substitute-back round trip at path capacity 8",
+		RequiredCovers: []string{"invoked", "not-invoked", "judged"},
+	}
+	m["C14"] = &propDef{
+		ID: "C14",
+		Items: func(tier string, seed int) []item {
+			var out []item
+			for tbl := 0; tbl < nCoreTables; tbl++ {
+				for router := 0; router < 2; router++ {
+					if router == 1 && (curlyOnly(tbl) || tbl == 5) {
+						continue // RouterJSR311: templates without tail wildcard only
+					}
+					out = append(out, item{Harness: "H_C14", Cfg: []int{tbl, router, 0}})
+				}
+			}
+			return out
+		},
+		Bounds:         map[string]interface{}{"path_bytes": 11, "segments": 3, "method_bytes": 7, "tables": nCoreTables},
+		Assumptions:    commonAssumptions,
+		Rule:           "core route tables x routers; product of two dispatches: symbolic path p (no trailing slash, some non-empty segment) and p+\"/\", symbolic method",
+		RequiredCovers: []string{"invoked", "not-invoked"},
+	}
+	m["C18"] = &propDef{
+		ID: "C18",
+		Items: func(tier string, seed int) []item {
+			var out []item
+			for _, tbl := range []int{0, 1, 7, 8, 9, 10, 15, 16} {
+				out = append(out, item{Harness: "H_C18", Cfg: []int{tbl, 0}})
+				if hasMedia(tbl) {
+					out = append(out, item{Harness: "H_C18", Cfg: []int{tbl, 1}})
+				}
+			}
+			return out
+		},
+		Bounds:         map[string]interface{}{"path_bytes": 12, "segments": 3, "method_bytes": 7, "content_type_bytes": 6, "accept_bytes": 8, "tables": 8},
+		Assumptions:    commonAssumptions,
+		Rule:           "core tables of the common fragment (literal roots, literal/plain-variable segments) x stage; twin containers (CurlyRouter, RouterJSR311) get the same symbolic request",
+		RequiredCovers: []string{"invoked", "not-invoked"},
+	}
+	m["C03"] = &propDef{
+		ID: "C03",
+		Items: func(tier string, seed int) []item {
+			var out []item
+			for tbl := 0; tbl < nCoreTables; tbl++ {
+				if tbl == 9 || tbl == 12 {
+					continue // duplicate (method, template) pair / root paths of the same shape: excluded by the statement
+				}
+				for router := 0; router < 2; router++ {
+					if router == 1 && (curlyOnly(tbl) || (tbl >= 11 && tbl <= 14)) {
+						continue // RouterJSR311: route level and literal roots only
+					}
+					perms := []int{1}
+					if tbl == 7 {
+						perms = []int{1, 3}
+						if tier == "thorough" {
+							perms = []int{1, 2, 3, 4, 5}
+						}
+					}
+					for _, p := range perms {
+						out = append(out, item{Harness: "H_C03", Cfg: []int{tbl, router, p}})
+					}
+				}
+			}
+			return out
+		},
+		Bounds:         routingBounds,
+		Assumptions:    commonAssumptions,
+		Rule:           "core tables x routers x registration permutation (enumerated); twin containers registered in two orders get the same symbolic request; specificity checked against every other eligible route",
+		RequiredCovers: []string{"invoked", "not-invoked", "specificity-compared"},
+	}
+	m["C17"] = &propDef{
+		ID: "C17",
+		Items: func(tier string, seed int) []item {
+			var out []item
+			for _, tbl := range []int{0, 1, 7, 10, 16} {
+				for router := 0; router < 2; router++ {
+					out = append(out, item{Harness: "H_C17", Cfg: []int{tbl, router}})
+				}
+			}
+			return out
+		},
+		Bounds:         map[string]interface{}{"path_bytes": 12, "segments": 3, "methods": "all methods of the table plus one foreign method", "tables": 5},
+		Assumptions:    commonAssumptions,
+		Rule:           "tables of the fragment (literal roots incl. nested, literal/plain-variable segments) x routers; per symbolic URL one dispatch per method, one OPTIONS dispatch through OPTIONSFilter, and a filter-less twin",
+		RequiredCovers: []string{"405", "options-nonempty"},
+	}
 	return m
 }
